@@ -176,7 +176,10 @@ class Ctx:
         s.set("timeout", 2000)
         s.add(*self.domain)
         s.add(a != b)
-        r = str(s.check())
+        from . import watchdog
+
+        with watchdog.watch(2000, "atom identification"):
+            r = str(s.check())
         self.stats["eq_queries"] += 1
         self.stats["eq_time"] += time.time() - t0
         res = r == "unsat"
